@@ -2234,6 +2234,10 @@ func (t *Table) SetCellBorders(row, col int, config *CellBorderConfig) error {
 		return err
 	}
 
+	if config == nil {
+		return fmt.Errorf("单元格边框配置不能为空")
+	}
+
 	if cell.Properties == nil {
 		cell.Properties = &TableCellProperties{}
 	}
